@@ -87,10 +87,10 @@ def decStd : Bytes → Option Bytes
       let w ← unalpha w; let x ← unalpha x; let y ← unalpha y; let z ← unalpha z
       let n := w * 262144 + x * 4096 + y * 64 + z
       pure [(n / 65536).toUInt8, (n / 256 % 256).toUInt8, (n % 256).toUInt8]
-  | w :: x :: y :: z :: rest => do
+  | w :: x :: y :: z :: r :: rest => do
     let w ← unalpha w; let x ← unalpha x; let y ← unalpha y; let z ← unalpha z
     let n := w * 262144 + x * 4096 + y * 64 + z
-    let r ← decStd rest
+    let r ← decStd (r :: rest)
     pure ((n / 65536).toUInt8 :: (n / 256 % 256).toUInt8 :: (n % 256).toUInt8 :: r)
   | [] => some []
   | _ => none
